@@ -515,6 +515,19 @@ func (x *Exec) invoke(fr *Frame, st *State, site ssa.Instruction, c *ssa.CallCom
 	recv := x.val(fr, c.Value)
 	it := c.Value.Type()
 	name := types.TypeString(it, func(p *types.Package) string { return p.Name() })
+	if _, named := it.(*types.Named); !named {
+		// a dependency declared as an anonymous interface type on a struct field
+		// (`MetaClient interface{...}`): its specification is keyed by "pkg.Struct.field"
+		if u, ok := c.Value.(*ssa.UnOp); ok {
+			if fa, ok := u.X.(*ssa.FieldAddr); ok {
+				if pt := pointee(fa.X.Type()); pt != nil {
+					if su, ok := asStruct(pt); ok {
+						name = shortTypeName(pt) + "." + su.Field(fa.Field).Name()
+					}
+				}
+			}
+		}
+	}
 	var args []Val
 	for _, a := range c.Args {
 		args = append(args, x.val(fr, a))
